@@ -962,6 +962,83 @@ pub fn large_sweep(mode: Mode, sizes: &[usize], k_of: &(dyn Fn(usize) -> usize +
     (v, runs.load(Ordering::Relaxed), deviating.load(Ordering::Relaxed))
 }
 
+/// Medium-length inputs (see C01): a sequence prefix, optionally a whitespace control, 0..=40 plain bytes, an
+/// interrupting control or nothing, a character, a tail - handed over in two calls cut after the prefix (write_all
+/// and write!), and through the standard protocol with every script of <= 1 deviation (a short first write makes
+/// the second call begin inside the sequence).
+pub fn medium_sweep(mode: Mode) -> (Vec<vexplore::evidence::Finding>, u64, u64, u64) {
+    use rayon::prelude::*;
+    use std::sync::atomic::{AtomicU64, Ordering};
+    use vexplore::evidence::Finding;
+    let prefixes: [&str; 10] = ["", "\x1b", "\x1b[", "\x1b[1", "\x1b[1;", "\x1b]", "\x1b]0;t", "\x1bP", "\x1bP1q", "\x1b_"];
+    let cases: Vec<(usize, usize)> = (0..prefixes.len()).flat_map(|p| (0..=40usize).map(move |k| (p, k))).collect();
+    let (runs, deviating, inputs) = (AtomicU64::new(0), AtomicU64::new(0), AtomicU64::new(0));
+    let viol = std::sync::Mutex::new(Vec::<Finding>::new());
+    cases.par_iter().for_each(|&(pi, k)| {
+        let pre = prefixes[pi];
+        for ws in ["", "\n", "\t"] {
+            for ch in ['\u{e9}', '\u{1f600}', 'z'] {
+                for (mid, tail) in [("", "b"), ("", "bbbbbbbbbbbbbbbbbbbbm\x07x"), ("\x18", "b"), ("\x1a", "bbbbbbbbbbbbbbbbbbbbm\x07x"), ("\x07", "bb")] {
+                    let text = format!("{pre}{ws}{}{mid}{ch}{tail}", "a".repeat(k));
+                    let input = text.as_bytes();
+                    inputs.fetch_add(1, Ordering::Relaxed);
+                    let mut drivers = vec![(Driver::WriteProtocol, 1usize), (Driver::WriteAll, 0)];
+                    if !pre.is_empty() {
+                        drivers.push((Driver::TwoWriteAll(pre.len()), 0));
+                        drivers.push((Driver::TwoFmt(pre.len()), 0));
+                    }
+                    for (driver, kk) in drivers {
+                        let st = vexplore::scripts::enumerate(kk, |s| {
+                            let r = match guard(|| run_case(mode, input, driver, s.clone())) {
+                                Ok((r, script)) => {
+                                    *s = script;
+                                    r
+                                }
+                                Err(p) => {
+                                    s.mark_aborted();
+                                    Err(p)
+                                }
+                            };
+                            if s.deviations() > 0 {
+                                deviating.fetch_add(1, Ordering::Relaxed);
+                            }
+                            if let Err(m) = r {
+                                let mut v = viol.lock().unwrap();
+                                if v.len() < 100 {
+                                    let mut choices = s.choices();
+                                    while choices.last() == Some(&0) {
+                                        choices.pop();
+                                    }
+                                    let short: String = if m.len() > 700 { format!("{} ... {}", m.chars().take(400).collect::<String>(), m.chars().rev().take(250).collect::<Vec<_>>().into_iter().rev().collect::<String>()) } else { m.clone() };
+                                    v.push(Finding {
+                                        system: format!("{}/medium", driver_label(mode, driver)),
+                                        clause: clause_of(&m),
+                                        case: vec![hex(input), format!("{driver:?}"), format!("script{:?}", choices)],
+                                        message: short,
+                                        replay: serde_json::json!({"kind":"case","mode":format!("{mode:?}"),"input":hex(input),"driver":format!("{driver:?}"),"script":choices}),
+                                    });
+                                }
+                                return false;
+                            }
+                            true
+                        });
+                        runs.fetch_add(st.runs, Ordering::Relaxed);
+                    }
+                }
+            }
+        }
+    });
+    let mut v = viol.into_inner().unwrap();
+    v.sort_by_key(|f| (f.case[0].len(), f.key()));
+    let mut per: std::collections::HashMap<(String, String), usize> = Default::default();
+    v.retain(|f| {
+        let c = per.entry((f.system.clone(), f.clause.clone())).or_default();
+        *c += 1;
+        *c <= 2
+    });
+    (v, runs.load(Ordering::Relaxed), deviating.load(Ordering::Relaxed), inputs.load(Ordering::Relaxed))
+}
+
 pub fn replay_large(v: &serde_json::Value) -> Result<(), String> {
     let input = large_input(v["n"].as_u64().unwrap_or(0) as usize, v["shift"].as_u64().unwrap_or(0) as usize);
     let driver = parse_driver(v["driver"].as_str().unwrap_or(""));
